@@ -77,16 +77,49 @@ def sdump(node, _path=frozenset()):
     return ("object", type(node).__name__)
 
 
-def _cyclic(node, _path=()):
+def _cyclic(node, _path=None, _done=None):
+    """does the tree contain itself?  (linear: shared sub-trees are visited once)"""
     import ast as _ast
 
+    _path = _path if _path is not None else set()
+    _done = _done if _done is not None else set()
     if isinstance(node, _ast.AST):
-        if any(node is x for x in _path):
+        if id(node) in _path:
             return True
-        _path = _path + (node,)
-        return any(_cyclic(getattr(node, f, None), _path) for f in node._fields)
+        if id(node) in _done:
+            return False
+        _path.add(id(node))
+        try:
+            return any(_cyclic(getattr(node, f, None), _path, _done) for f in node._fields)
+        finally:
+            _path.discard(id(node))
+            _done.add(id(node))
     if isinstance(node, (list, tuple)):
-        return any(_cyclic(x, _path) for x in node)
+        return any(_cyclic(x, _path, _done) for x in node)
+    return False
+
+
+EXPANSION_BUDGET = 200_000
+
+
+def _too_big(node):
+    """would writing this tree out (shared sub-trees once per reference, as every printer and
+    every analysis visits them) take more than EXPANSION_BUDGET nodes?  DUP / memo references nest
+    sharing exponentially: `(N2t2t2t...` doubles per level.  Such trees are compared by none of
+    the views: neither the object under test nor a fresh one could be asked in bounded time."""
+    import ast as _ast
+
+    n = 0
+    stack = [node]
+    while stack:
+        x = stack.pop()
+        n += 1
+        if n > EXPANSION_BUDGET:
+            return True
+        if isinstance(x, _ast.AST):
+            stack.extend(getattr(x, f, None) for f in x._fields)
+        elif isinstance(x, (list, tuple)):
+            stack.extend(x)
     return False
 
 
@@ -105,6 +138,8 @@ def view(p, which):
     from fickling.analysis import check_safety
 
     try:
+        if which not in ("dumps", "dump_file", "counts") and _too_big(p.ast):
+            return ("raised", "expansion-too-large")
         if which == "astdump":
             return ("ok", sdump(p.ast))
         if which == "has_import":
